@@ -69,7 +69,7 @@ class Result:
     def add_case(self, case_repr: str, nontrivial: bool = True):
         self.evaluations += 1
         if nontrivial:
-            self.nontrivial.add(hashlib.blake2b(case_repr.encode(), digest_size=8).digest())
+            self.nontrivial.add(hashlib.blake2b(case_repr.encode("utf-8", "surrogatepass"), digest_size=8).digest())
         if len(self.samples) < 3:
             self.samples.append(clip(case_repr, 300))
 
